@@ -250,7 +250,7 @@ CHECKS = {
              "quick": {"procs": 16, "checks_per_proc": 40}, "thorough": {"procs": 32, "checks_per_proc": 500}},
             {"pkg": ".", "test": "TestVerifC05c", "proc_timeout": "60m",
              "instrument": ["store_message.go", "store_message_queue.go", "group_context.go", "internal/queue"],
-             "quick": {"procs": 16, "checks_per_proc": 25}, "thorough": {"procs": 32, "checks_per_proc": 300}},
+             "quick": {"procs": 32, "checks_per_proc": 25}, "thorough": {"procs": 32, "checks_per_proc": 300}},
         ],
         "rule": "part (a): one case = (group type, window, sender history of 0-8 messages, announcement taken at a drawn counter) x "
                 "{right recipient; another party in the same group; right recipient in another group; another claimed sender; every "
